@@ -282,11 +282,11 @@ def seek_read_script(ctx, rng, fs, path, content, info):
 def model_correspondence(ctx):
     """differential runs of the extracted Coq models of this property's cores against the real classes"""
     import fat_table_corr
-    fat_table_corr.run(ctx)
+    lib.corr_run(ctx, fat_table_corr)
     SPEC['theorems'].update(getattr(fat_table_corr, 'SPEC_THEOREMS', {}))
     SPEC['trusted_base'].extend(x for x in getattr(fat_table_corr, 'TRUSTED', []) if x not in SPEC['trusted_base'])
     import fat_read_corr
-    fat_read_corr.run(ctx)
+    lib.corr_run(ctx, fat_read_corr)
     SPEC['theorems'].update(getattr(fat_read_corr, 'SPEC_THEOREMS', {}))
     SPEC['trusted_base'].extend(x for x in getattr(fat_read_corr, 'TRUSTED', []) if x not in SPEC['trusted_base'])
 
